@@ -314,6 +314,18 @@ func (v *vc) cover(st *state, label, cond string) {
 	v.obls = append(v.obls, ob)
 }
 
+// coverOnce: a reachability check that is emitted once per label (e.g. after the first symbolic visit of a call
+// site): the assumed postcondition of a callee must not contradict what is already known.
+func (v *vc) coverOnce(st *state, label string) {
+	name := v.fnName + "/cover:" + label
+	for _, o := range v.obls {
+		if o.name == name {
+			return
+		}
+	}
+	v.cover(st, label, "true")
+}
+
 func (v *vc) note(format string, args ...interface{}) {
 	s := fmt.Sprintf(format, args...)
 	for _, x := range v.imprecise {
@@ -383,7 +395,7 @@ func (v *vc) setHeap(st *state, name, sort, term string) {
 
 func (v *vc) fieldHeap(st types.Type, fi int) (name, sort string) {
 	s := st.Underlying().(*types.Struct)
-	name = "H " + typeKey(st) + "." + s.Field(fi).Name()
+	name = "H " + typeKey(canonStruct(st)) + "." + s.Field(fi).Name()
 	sort = fmt.Sprintf("(Array Int %s)", v.sc.sortOf(s.Field(fi).Type()))
 	v.regHeapT(name, sort, s.Field(fi).Type())
 	return
